@@ -1,6 +1,8 @@
 //! vx — mechanical extractor: /repo source -> normalised Verus text with woven contracts.
 //! usage: vx <spec.vx> --repo <dir> --prelude <dir> --out <file.rs> --meta <file.json> [--canary]
 //! exit 0 ok; exit 2 lost anchor / unsupported construct / spec error (never a verdict).
+mod derive;
+mod align;
 mod norm;
 mod spec;
 
@@ -23,6 +25,8 @@ struct Ctx {
     types_meta: Vec<Value>,
     canaries: Vec<String>,
     problems: Vec<String>,
+    /// per function display name: kind -> node signatures of the baseline (for ordinal alignment)
+    baseline_sigs: BTreeMap<String, align::Sigs>,
 }
 
 impl Ctx {
@@ -45,6 +49,8 @@ struct FoundFn {
     impl_generics: Option<Generics>,
     self_ty: Option<Type>,
     trait_: Option<Path>,
+    /// `type X = ..;` items of the (trait) impl the fn was found in, printed
+    assoc_types: Vec<String>,
     start: usize,
     end: usize,
 }
@@ -87,14 +93,15 @@ fn find_in_items(items: &[Item], self_ty: Option<&str>, name: &str, modpath: &[&
         match (item, self_ty) {
             (Item::Fn(f), None) if f.sig.ident == name => {
                 let sp = f.span();
-                return Some(FoundFn { attrs: f.attrs.clone(), sig: f.sig.clone(), block: (*f.block).clone(), impl_generics: None, self_ty: None, trait_: None, start: sp.start().line, end: sp.end().line });
+                return Some(FoundFn { attrs: f.attrs.clone(), sig: f.sig.clone(), block: (*f.block).clone(), impl_generics: None, self_ty: None, trait_: None, assoc_types: vec![], start: sp.start().line, end: sp.end().line });
             }
             (Item::Impl(im), Some(st)) if impl_matches(im, st) => {
                 for it in &im.items {
                     if let ImplItem::Fn(f) = it {
                         if f.sig.ident == name {
                             let sp = f.span();
-                            return Some(FoundFn { attrs: f.attrs.clone(), sig: f.sig.clone(), block: f.block.clone(), impl_generics: Some(im.generics.clone()), self_ty: Some((*im.self_ty).clone()), trait_: im.trait_.as_ref().map(|t| t.1.clone()), start: sp.start().line, end: sp.end().line });
+                            let assoc_types = im.items.iter().filter_map(|x| if let ImplItem::Type(t) = x { let mut t = t.clone(); t.attrs.clear(); t.vis = Visibility::Inherited; Some(ts(&t)) } else { None }).collect();
+                            return Some(FoundFn { attrs: f.attrs.clone(), sig: f.sig.clone(), block: f.block.clone(), impl_generics: Some(im.generics.clone()), self_ty: Some((*im.self_ty).clone()), trait_: im.trait_.as_ref().map(|t| t.1.clone()), assoc_types, start: sp.start().line, end: sp.end().line });
                         }
                     }
                 }
@@ -105,7 +112,7 @@ fn find_in_items(items: &[Item], self_ty: Option<&str>, name: &str, modpath: &[&
                         if f.sig.ident == name {
                             if let Some(b) = &f.default {
                                 let sp = f.span();
-                                return Some(FoundFn { attrs: f.attrs.clone(), sig: f.sig.clone(), block: b.clone(), impl_generics: Some(tr.generics.clone()), self_ty: None, trait_: None, start: sp.start().line, end: sp.end().line });
+                                return Some(FoundFn { attrs: f.attrs.clone(), sig: f.sig.clone(), block: b.clone(), impl_generics: Some(tr.generics.clone()), self_ty: None, trait_: None, assoc_types: vec![], start: sp.start().line, end: sp.end().line });
                             }
                         }
                     }
@@ -167,6 +174,33 @@ impl<'ast> Visit<'ast> for Finger {
         syn::visit::visit_stmt(self, s);
     }
 }
+/// loop skeleton: loop kinds and their nesting only (what the woven invariants are attached to)
+fn skeleton(shape: &str) -> String {
+    // shape tokens: `W(`, `L(`, `F(`, other tokens `xyz(`, and `)`; keep W/L/F with balanced parens
+    let b: Vec<char> = shape.chars().collect();
+    let mut out = String::new();
+    let mut stack: Vec<bool> = vec![];
+    let mut i = 0;
+    let mut tok_start = 0;
+    while i < b.len() {
+        match b[i] {
+            '(' => {
+                let tok: String = b[tok_start..i].iter().collect();
+                let keep = tok == "W" || tok == "L" || tok == "F";
+                if keep { out.push_str(&tok); out.push('('); }
+                stack.push(keep);
+                tok_start = i + 1;
+            }
+            ')' => {
+                if let Some(true) = stack.pop() { out.push(')'); }
+                tok_start = i + 1;
+            }
+            _ => {}
+        }
+        i += 1;
+    }
+    out
+}
 fn fnv(s: &str) -> String {
     let mut h: u64 = 0xcbf29ce484222325;
     for b in s.bytes() { h ^= b as u64; h = h.wrapping_mul(0x100000001b3); }
@@ -216,6 +250,26 @@ fn unwrap_it_labels(mut body: String) -> String {
 struct Rendered { text: String, meta: Value }
 
 fn render_fn(ctx: &mut Ctx, unit: &Unit, fs: &FnSpec, found: &FoundFn, in_trait_impl: bool, display: &str) -> Rendered {
+    // pass 1 (identity ordinals) collects the node signatures; they are aligned with the baseline's, and pass 2 weaves
+    // the contract text at the nodes the baseline ordinals denote (DESIGN §2.1 "ordinal alignment")
+    match ctx.baseline_sigs.get(display).cloned() {
+        None => render_fn_pass(ctx, unit, fs, found, in_trait_impl, display, align::OrdMap::identity()),
+        Some(bs) => {
+            let (pl, cl) = (ctx.problems.len(), ctx.canaries.len());
+            let r1 = render_fn_pass(ctx, unit, fs, found, in_trait_impl, display, align::OrdMap::identity());
+            ctx.problems.truncate(pl);
+            ctx.canaries.truncate(cl);
+            let cur: align::Sigs = serde_json::from_value(r1.meta["sigs"].clone()).unwrap_or_default();
+            if cur == bs { return { ctx.problems.truncate(pl); render_fn_pass(ctx, unit, fs, found, in_trait_impl, display, align::OrdMap::identity()) }; }
+            let omap = align::OrdMap::build(&bs, &cur);
+            let mut r2 = render_fn_pass(ctx, unit, fs, found, in_trait_impl, display, omap);
+            r2.meta["aligned"] = json!(true);
+            r2
+        }
+    }
+}
+
+fn render_fn_pass(ctx: &mut Ctx, unit: &Unit, fs: &FnSpec, found: &FoundFn, in_trait_impl: bool, display: &str, omap: align::OrdMap) -> Rendered {
     let mut fgr = Finger(String::new());
     fgr.visit_block(&found.block);
     let shape = fgr.0;
@@ -223,9 +277,11 @@ fn render_fn(ctx: &mut Ctx, unit: &Unit, fs: &FnSpec, found: &FoundFn, in_trait_
     let mut sig = found.sig.clone();
     let mut block = found.block.clone();
     let mut n = Norm::new(fs, unit, ctx.canary, display);
+    n.omap = omap;
     let mut pre: Vec<Stmt> = vec![];
     // R-ASYNC on the signature
     if sig.asyncness.is_some() { sig.asyncness = None; n.bump("R-ASYNC"); }
+    if sig.constness.is_some() { sig.constness = None; n.bump("R-ATTR"); }
     // receivers / mut params
     let mut inputs: Vec<String> = vec![];
     let mut extra_generics: Vec<String> = vec![];
@@ -247,17 +303,36 @@ fn render_fn(ctx: &mut Ctx, unit: &Unit, fs: &FnSpec, found: &FoundFn, in_trait_
             FnArg::Typed(pt) => {
                 pt.attrs.clear();
                 n.visit_type_mut(&mut pt.ty);
+                if let Pat::Wild(_) = &*pt.pat {
+                    // R-WILDPARAM: Verus wants a plain identifier
+                    let id = Ident::new(&format!("_vx_arg{}", inputs.len()), Span::call_site());
+                    *pt.pat = parse_quote!(#id);
+                    n.bump("R-WILDPARAM");
+                }
+                if let Type::Reference(r) = &*pt.ty { if r.mutability.is_some() && matches!(&*r.elem, Type::Slice(_)) { if let Pat::Ident(pi) = &*pt.pat { n.mut_slices.push(pi.ident.to_string()); } } }
                 let mut name = ts(&pt.pat);
                 if let Pat::Ident(pi) = &mut *pt.pat {
                     if pi.mutability.is_some() && pi.by_ref.is_none() {
                         pi.mutability = None;
-                        let id = &pi.ident;
-                        pre.push(parse_quote!(let mut #id = #id;));
+                        let id = pi.ident.clone();
+                        if fs.opts.contains("rename-mutparam") {
+                            // the mutable copy gets its own name (`x_mut`) so that contracts and invariants can relate it to the parameter
+                            let to = format!("{}_mut", id);
+                            Rename { from: &id.to_string(), to: &to }.visit_block_mut(&mut block);
+                            let nid = Ident::new(&to, Span::call_site());
+                            pre.push(parse_quote!(let mut #nid = #id;));
+                        } else {
+                            pre.push(parse_quote!(let mut #id = #id;));
+                        }
                         n.bump("R-MUTPARAM");
                     }
                     name = pi.ident.to_string();
                 }
-                let ty: String = if let Some(t) = fs.argtype.get(&name) { n.bump("R-ARGTYPE"); t.clone() } else {
+                {
+                    // R-STRSLICE: remember `&str` / `&'a str` parameters
+                    if let Type::Reference(r) = &*pt.ty { if r.mutability.is_none() { if let Type::Path(tp) = &*r.elem { if tp.path.is_ident("str") { n.str_idents.insert(name.clone()); } } } }
+                }
+                let ty: String = if let Some(t) = fs.argtype.get(&name) { n.bump("R-ARGTYPE"); if squash(t).starts_with("VxIter<") { n.iter_idents.insert(name.clone()); } t.clone() } else {
                     // R-IMPLTRAIT
                     fn repl(t: &mut Type, impl_no: &mut usize, extra: &mut Vec<String>) -> bool {
                         match t {
@@ -274,6 +349,14 @@ fn render_fn(ctx: &mut Ctx, unit: &Unit, fs: &FnSpec, found: &FoundFn, in_trait_
         }
     }
     let has_ret = !matches!(sig.output, ReturnType::Default);
+    if fs.opts.contains("retbind-typed") {
+        if let ReturnType::Type(_, t) = &sig.output {
+            let mut t2 = (**t).clone();
+            let mut nn = Norm::new(fs, unit, false, "");
+            nn.visit_type_mut(&mut t2);
+            n.ret_ty = parse_str::<Type>(&fs.rettype.clone().unwrap_or_else(|| ts(&t2))).ok();
+        }
+    }
     n.run_block(&mut block, has_ret);
     for (k, s) in pre.into_iter().enumerate() { block.stmts.insert(k, s); }
 
@@ -309,16 +392,27 @@ fn render_fn(ctx: &mut Ctx, unit: &Unit, fs: &FnSpec, found: &FoundFn, in_trait_
     // weave loops
     for k in 1..=n.loop_no {
         let ph = format!("__vx_loop_{}!();", k);
-        match fs.loops.get(&k) {
+        match fs.loops.get(&n.b("loop", k)) {
             Some(txt) => match weave_before_brace(&body, &ph, txt) { Some(b) => body = b, None => ctx.problems.push(format!("LOST-ANCHOR loop {} of {}", k, display)) },
             None => body = body.replacen(&ph, "", 1),
         }
     }
-    for k in fs.loops.keys() { if *k > n.loop_no { ctx.problems.push(format!("LOST-ANCHOR loop {} of {} (function has {} loops)", k, display, n.loop_no)); } }
-    for (k, cs) in &fs.closures {
-        let ph = format!("__vx_closure_{}!();", k);
-        let txt = if cs.ret.is_empty() { cs.contract.clone() } else { format!("-> ({})\n{}", cs.ret, cs.contract) };
-        match weave_before_brace(&body, &ph, &txt) { Some(b) => body = b, None => ctx.problems.push(format!("LOST-ANCHOR closure {} of {}", k, display)) }
+    {
+        let hit: std::collections::BTreeSet<usize> = (1..=n.loop_no).map(|k| n.b("loop", k)).collect();
+        for k in fs.loops.keys() { if !hit.contains(k) { ctx.problems.push(format!("LOST-ANCHOR loop {} of {} (function has {} loops)", k, display, n.loop_no)); } }
+    }
+    {
+        let mut hit: std::collections::BTreeSet<usize> = Default::default();
+        for k in 1..=n.closure_no {
+            let bk = n.b("closure", k);
+            if let Some(cs) = fs.closures.get(&bk) {
+                hit.insert(bk);
+                let ph = format!("__vx_closure_{}!();", k);
+                let txt = if cs.ret.is_empty() { cs.contract.clone() } else { format!("-> ({})\n{}", cs.ret, cs.contract) };
+                match weave_before_brace(&body, &ph, &txt) { Some(b) => body = b, None => ctx.problems.push(format!("LOST-ANCHOR closure {} of {}", bk, display)) }
+            }
+        }
+        for k in fs.closures.keys() { if !hit.contains(k) { ctx.problems.push(format!("LOST-ANCHOR closure {} of {}", k, display)); } }
     }
     // raws
     for (i, raw) in n.raws.iter().enumerate() {
@@ -327,12 +421,12 @@ fn render_fn(ctx: &mut Ctx, unit: &Unit, fs: &FnSpec, found: &FoundFn, in_trait_
     }
     body = unwrap_it_labels(body);
     for (a, _) in &fs.at { if !n.used_anchors.contains(a) { ctx.problems.push(format!("LOST-ANCHOR `{}` in {} (available: {})", a, display, n.avail_anchors.iter().cloned().collect::<Vec<_>>().join(" "))); } }
-    for (m, _, name) in &fs.chainbind { if !n.used_anchors.contains(&format!("chainbind {}", m)) { ctx.problems.push(format!("LOST-ANCHOR `@chainbind {} {}` in {} (root-spine method calls seen: {})", m, name, display, n.chain_no.iter().map(|(k, v)| format!("{}x{}", k, v)).collect::<Vec<_>>().join(" "))); } }
+    for (k, _) in &fs.letsplit_named { if !n.used_anchors.contains(&format!("letsplit {}", k)) { ctx.problems.push(format!("LOST-ANCHOR @letsplit {} in {}", k, display)); } }
     for e in &n.errors { ctx.problems.push(format!("UNSUPPORTED {}", e)); }
     ctx.canaries.extend(n.canaries.iter().cloned());
     let meta = json!({
         "name": display, "emit_name": name, "file": fs.file, "src_lines": [found.start, found.end],
-        "rules": n.log, "shape": shape, "fingerprint": fnv(&shape),
+        "rules": n.log, "sigs": n.sigs, "skeleton": skeleton(&shape), "shape": shape, "fingerprint": fnv(&shape),
         "loops": n.loop_no, "closures": n.closure_no, "anchors_used": n.used_anchors, "props": fs.props,
         "may_panic_asserts": fs.may_panic, "spec_line": fs.line, "included": fs.opts.contains("included"),
     });
@@ -357,13 +451,32 @@ fn impl_header(found: &FoundFn, hdr: &Option<String>, unit: &Unit, fs: &FnSpec) 
     }
 }
 
+/// `@type file Name keep-derive=PartialEq,Eq`: the listed traits must be in the source's `#[derive(..)]` and are re-emitted
+/// (all other attributes are dropped as usual). A trait the spec relies on but the source no longer derives = LOST-ANCHOR.
+fn kept_derives(attrs: &[Attribute], t: &spec::TypeSpec) -> std::result::Result<String, String> {
+    let Some(want) = t.opts.iter().find_map(|o| o.strip_prefix("keep-derive=")) else { return Ok(String::new()) };
+    let mut have: Vec<String> = vec![];
+    for a in attrs {
+        if a.path().is_ident("derive") {
+            let _ = a.parse_nested_meta(|m| { if let Some(s) = m.path.segments.last() { have.push(s.ident.to_string()); } Ok(()) });
+        }
+    }
+    let mut keep = vec![];
+    for w in want.split(',').map(str::trim).filter(|w| !w.is_empty()) {
+        if have.iter().any(|h| h == w) { keep.push(w.to_string()); } else { return Err(format!("LOST-ANCHOR derive({}) on type {} in {} (source derives: {})", w, t.name, t.file, have.join(","))); }
+    }
+    Ok(format!("#[derive({})]\n", keep.join(", ")))
+}
+
 fn emit_type(ctx: &mut Ctx, unit: &Unit, t: &spec::TypeSpec) -> std::result::Result<String, String> {
     let (_, file) = ctx.file(&t.file)?.clone();
     let dummy = FnSpec::default();
     for item in &file.items {
         match item {
             Item::Struct(s) if s.ident == t.name => {
+                let sp = s.span();
                 let mut s = s.clone();
+                let derives = kept_derives(&s.attrs, t)?;
                 s.attrs.clear();
                 s.vis = parse_quote!(pub);
                 let mut n = Norm::new(&dummy, unit, false, "");
@@ -373,21 +486,21 @@ fn emit_type(ctx: &mut Ctx, unit: &Unit, t: &spec::TypeSpec) -> std::result::Res
                     n.visit_type_mut(&mut f.ty);
                     if let Some(id) = &f.ident { if let Some(ft) = t.fieldtype.get(&id.to_string()) { f.ty = parse_str(ft).map_err(|e| format!("SPEC-ERROR fieldtype {}: {}", ft, e))?; } }
                 }
-                let sp = s.span();
-                ctx.types_meta.push(json!({"name": t.name, "file": t.file, "src_lines": [sp.start().line, sp.end().line], "rules": n.log}));
+                ctx.types_meta.push(json!({"name": t.name, "file": t.file, "src_lines": [sp.start().line, sp.end().line], "rules": n.log, "kept_derives": derives.trim()}));
                 let f: File = parse_quote!(#s);
-                return Ok(format!("{}\n{}{}", t.attrs, prettyplease::unparse(&f), t.extra));
+                return Ok(format!("{}\n{}{}{}", t.attrs, derives, prettyplease::unparse(&f), t.extra));
             }
             Item::Enum(e) if e.ident == t.name => {
+                let sp = e.span();
                 let mut e = e.clone();
+                let derives = kept_derives(&e.attrs, t)?;
                 e.attrs.clear();
                 e.vis = parse_quote!(pub);
                 let mut n = Norm::new(&dummy, unit, false, "");
                 for v in e.variants.iter_mut() { v.attrs.clear(); for f in v.fields.iter_mut() { f.attrs.clear(); n.visit_type_mut(&mut f.ty); } }
-                let sp = e.span();
-                ctx.types_meta.push(json!({"name": t.name, "file": t.file, "src_lines": [sp.start().line, sp.end().line], "rules": n.log}));
+                ctx.types_meta.push(json!({"name": t.name, "file": t.file, "src_lines": [sp.start().line, sp.end().line], "rules": n.log, "kept_derives": derives.trim()}));
                 let f: File = parse_quote!(#e);
-                return Ok(format!("{}\n{}{}", t.attrs, prettyplease::unparse(&f), t.extra));
+                return Ok(format!("{}\n{}{}{}", t.attrs, derives, prettyplease::unparse(&f), t.extra));
             }
             _ => {}
         }
@@ -426,6 +539,8 @@ fn main() {
     let mut out = String::new();
     let mut meta_path = String::new();
     let mut canary = false;
+    let mut lenient = false;
+    let mut baseline_path = String::new();
     let mut specfile = String::new();
     let mut i = 1;
     while i < args.len() {
@@ -435,6 +550,8 @@ fn main() {
             "--out" => { out = args[i + 1].clone(); i += 1; }
             "--meta" => { meta_path = args[i + 1].clone(); i += 1; }
             "--canary" => canary = true,
+            "--lenient" => lenient = true,
+            "--baseline" => { baseline_path = args[i + 1].clone(); i += 1; }
             s => specfile = s.to_string(),
         }
         i += 1;
@@ -443,10 +560,23 @@ fn main() {
     let text = std::fs::read_to_string(&specfile).unwrap_or_else(|e| fail(&format!("SPEC-ERROR cannot read {}: {}", specfile, e)));
     let text = spec::preprocess(&text, std::path::Path::new(&specfile).parent().unwrap_or(std::path::Path::new(".")), 0).unwrap_or_else(|e| fail(&format!("SPEC-ERROR {}", e)));
     let unit = spec::parse(&text).unwrap_or_else(|e| fail(&format!("SPEC-ERROR {}", e)));
-    let mut ctx = Ctx { repo, files: Default::default(), canary, out: String::new(), fns_meta: vec![], types_meta: vec![], canaries: vec![], problems: vec![] };
+    let mut baseline_sigs: BTreeMap<String, align::Sigs> = Default::default();
+    if !baseline_path.is_empty() {
+        if let Ok(t) = std::fs::read_to_string(&baseline_path) {
+            if let Ok(v) = serde_json::from_str::<Value>(&t) {
+                if let Some(fns) = v["functions"].as_object() {
+                    for (name, f) in fns {
+                        if let Ok(sg) = serde_json::from_value::<align::Sigs>(f["sigs"].clone()) { baseline_sigs.insert(name.clone(), sg); }
+                    }
+                }
+            }
+        }
+    }
+    let mut ctx = Ctx { repo, files: Default::default(), canary, out: String::new(), fns_meta: vec![], types_meta: vec![], canaries: vec![], problems: vec![], baseline_sigs };
 
     let mut o = String::new();
     o.push_str(&format!("// GENERATED by /verif/vx from the working tree of /repo — unit `{}`. Do not edit.\n", unit.name));
+    for f in &unit.features { o.push_str(&format!("#![feature({})]\n", f)); }
     o.push_str("#![allow(unused_imports, unused_variables, unused_mut, dead_code, unused_parens, unused_braces, non_snake_case, unused_assignments, unreachable_code, non_camel_case_types, non_upper_case_globals)]\nuse vstd::prelude::*;\nuse vstd::std_specs::cmp::PartialEqSpec;\nuse vstd::view::View as _;\nuse vstd::multiset::Multiset;\n");
     for u in &unit.uses { o.push_str(u); o.push('\n'); }
     o.push_str("verus! {\n\n");
@@ -455,19 +585,65 @@ fn main() {
         let t = std::fs::read_to_string(&path).unwrap_or_else(|e| fail(&format!("SPEC-ERROR prelude {}: {}", path, e)));
         o.push_str(&format!("// ======== prelude/{}.vx ========\n{}\n", p, t));
     }
+    // R-MACRO-EXPAND: one helper run for all @derive directives
+    let groups: Vec<(String, Vec<String>)> = unit.items.iter().filter_map(|it| if let SItem::Derive(d) = it { Some((d.file.clone(), d.names.clone())) } else { None }).collect();
+    let derived = if groups.is_empty() { Ok(vec![]) } else { derive::run_helper(&ctx.repo, &groups) };
     for item in &unit.items {
         match item {
             SItem::Raw(t) => { o.push_str(t); o.push('\n'); }
             SItem::Type(t) => match emit_type(&mut ctx, &unit, t) { Ok(s) => { o.push_str(&format!("// ---- type {} from {}\n{}\n", t.name, t.file, s)); } Err(e) => ctx.problems.push(e) },
-            SItem::Const { file, name } => {
+            SItem::Const { file, name, ensures, props, line } => {
                 match ctx.file(file) {
                     Ok((_, f)) => {
+                        let f = f.clone();
                         let mut done = false;
-                        for it in &f.items { if let Item::Const(c) = it { if c.ident == name.as_str() { let mut c = c.clone(); c.attrs.clear(); c.vis = parse_quote!(pub); o.push_str(&format!("// ---- const {} from {}\n{}\n", name, file, ts(&c))); done = true; } } }
-                        // associated const `Type::NAME` of an inherent impl, emitted as `impl Type { pub const NAME: T = E; }`
-                        if let Some((ty, cn)) = name.split_once("::") {
-                            for it in &f.items { if let Item::Impl(im) = it { if im.trait_.is_none() && squash(&ts(&im.self_ty)) == squash(ty) {
-                                for ii in &im.items { if let ImplItem::Const(c) = ii { if c.ident == cn && !done { let mut c = c.clone(); c.attrs.clear(); c.vis = parse_quote!(pub); o.push_str(&format!("// ---- const {} from {}\nimpl {} {{ {} }}\n", name, file, ty, ts(&c))); done = true; } } }
+                        for it in &f.items { if let Item::Const(c) = it { if c.ident == name.as_str() {
+                            let sp = c.span();
+                            let mut c = c.clone(); c.attrs.clear(); c.vis = parse_quote!(pub);
+                            done = true;
+                            if ensures.is_empty() && unit.strlit.is_none() {
+                                o.push_str(&format!("// ---- const {} from {}\n{}\n", name, file, ts(&c)));
+                                continue;
+                            }
+                            // R-CONST: type and initialiser go through the rule catalogue; with `@ensures` the item becomes
+                            // `exec const NAME: T ensures .. { INIT }` (elided reference lifetimes in T are 'static)
+                            let dummy = FnSpec::default();
+                            let mut n = Norm::new(&dummy, &unit, false, name);
+                            n.visit_type_mut(&mut c.ty);
+                            n.visit_expr_mut(&mut c.expr);
+                            for e in &n.errors { ctx.problems.push(format!("UNSUPPORTED {}", e)); }
+                            let start = o.lines().count() + 1;
+                            if ensures.is_empty() {
+                                o.push_str(&format!("// ---- const {} from {}\n{}\n", name, file, ts(&c)));
+                            } else {
+                                struct Stat;
+                                impl VisitMut for Stat {
+                                    fn visit_type_reference_mut(&mut self, r: &mut TypeReference) {
+                                        if r.lifetime.is_none() { r.lifetime = Some(parse_quote!('static)); }
+                                        syn::visit_mut::visit_type_reference_mut(self, r);
+                                    }
+                                }
+                                Stat.visit_type_mut(&mut c.ty);
+                                let mut fgr = Finger(String::new());
+                                fgr.visit_expr(&c.expr);
+                                let blk: Block = { let e = &c.expr; parse_quote!({ #e }) };
+                                o.push_str(&format!("// ---- const {} from {}:{}-{}\npub exec const {}: {}\n    ensures\n{}\n{}\n", name, file, sp.start().line, sp.end().line, name, ts(&c.ty), indent(ensures, 8), print_block(&blk)));
+                                n.bump("R-CONST");
+                                let end = o.lines().count();
+                                ctx.fns_meta.push(json!({
+                                    "name": name, "emit_name": name, "file": file, "src_lines": [sp.start().line, sp.end().line],
+                                    "rules": n.log, "shape": fgr.0, "fingerprint": fnv(&fgr.0), "loops": 0, "closures": 0, "anchors_used": [], "props": props,
+                                    "may_panic_asserts": [], "spec_line": line, "included": false, "gen_lines": [start, end],
+                                }));
+                            }
+                        } } }
+                        // `Type::NAME`: associated const of an inherent impl, emitted verbatim inside `impl Type { .. }`
+                        if let (Some(ty), cn) = split_path(name) {
+                            for it in &f.items { if let Item::Impl(im) = it { if im.trait_.is_none() && squash(&ts(&im.self_ty)) == squash(&ty) {
+                                for ii in &im.items { if let ImplItem::Const(c) = ii { if c.ident == cn.as_str() {
+                                    let mut c = c.clone(); c.attrs.clear(); c.vis = parse_quote!(pub);
+                                    o.push_str(&format!("// ---- const {} from {}\nimpl{} {} {{\n    {}\n}}\n", name, file, strip_generic_defaults(&im.generics), ts(&im.self_ty), ts(&c))); done = true;
+                                } } }
                             } } }
                         }
                         if !done { ctx.problems.push(format!("LOST-ANCHOR const {} in {}", name, file)); }
@@ -475,7 +651,58 @@ fn main() {
                     Err(e) => ctx.problems.push(e),
                 }
             }
-            SItem::Derive { .. } => { ctx.problems.push("UNSUPPORTED @derive handled by derive helper".into()); }
+            SItem::Derive(d) => {
+                // R-MACRO-EXPAND
+                if d.names.len() > 1 && (!d.extra.is_empty() || !d.f.at.is_empty()) { ctx.problems.push(format!("SPEC-ERROR @derive with several names takes no sub-directives ({})", d.names.join(" "))); }
+                match &derived {
+                    Err(e) => { if !ctx.problems.contains(e) { ctx.problems.push(e.clone()); } }
+                    Ok(list) => for ex in list.iter().filter(|x| x.file == d.file && d.names.contains(&x.name)) {
+                        // the type definition (attrs dropped, fields pub, R-TYPE)
+                        let dummy = FnSpec::default();
+                        let mut nt = Norm::new(&dummy, &unit, false, "");
+                        let mut item = ex.item.clone();
+                        match &mut item {
+                            Item::Struct(s) => { s.attrs.clear(); s.vis = parse_quote!(pub); for f in s.fields.iter_mut() { f.attrs.clear(); f.vis = parse_quote!(pub); nt.visit_type_mut(&mut f.ty); } }
+                            Item::Enum(e) => { e.attrs.clear(); e.vis = parse_quote!(pub); for v in e.variants.iter_mut() { v.attrs.clear(); for f in v.fields.iter_mut() { f.attrs.clear(); nt.visit_type_mut(&mut f.ty); } } }
+                            _ => {}
+                        }
+                        ctx.types_meta.push(json!({"name": ex.name, "file": d.file, "src_lines": [ex.lines.0, ex.lines.1], "rules": nt.log, "via": ex.via}));
+                        let tf: File = parse_quote!(#item);
+                        o.push_str(&format!("// ---- type {} from {}:{}-{} ({})\n{}\n{}\n", ex.name, d.file, ex.lines.0, ex.lines.1, ex.via, d.tattrs, prettyplease::unparse(&tf)));
+                        // the macro's impl: header + `hash`
+                        let mut imp = ex.imp.clone();
+                        imp.attrs.clear();
+                        let mut hn = Norm::new(&dummy, &unit, false, "");
+                        hn.visit_generics_mut(&mut imp.generics);
+                        if let Some((_, p, _)) = &mut imp.trait_ { hn.visit_path_mut(p); }
+                        hn.visit_type_mut(&mut imp.self_ty);
+                        let is_ch = imp.trait_.as_ref().map(|t| ts(&t.1) == "ContentHash").unwrap_or(false);
+                        let hashes: Vec<&ImplItemFn> = imp.items.iter().filter_map(|it| if let ImplItem::Fn(f) = it { Some(f) } else { None }).collect();
+                        if !is_ch || hashes.len() != 1 || hashes[0].sig.ident != "hash" || imp.items.len() != 1 {
+                            ctx.problems.push(format!("UNSUPPORTED derive {}: macro output is not `impl ContentHash for .. {{ fn hash }}`", ex.name));
+                            continue;
+                        }
+                        let hf = hashes[0];
+                        let found = FoundFn { attrs: vec![], sig: hf.sig.clone(), block: hf.block.clone(), impl_generics: Some(imp.generics.clone()), self_ty: Some((*imp.self_ty).clone()), trait_: imp.trait_.as_ref().map(|t| t.1.clone()), assoc_types: vec![], start: ex.lines.0, end: ex.lines.1 };
+                        let disp = format!("<derive ContentHash for {}>::hash", ex.name);
+                        let mut dfs = d.f.clone();
+                        if !dfs.at.iter().any(|(a, _)| a == "fn.end") { if let Some(t) = derive::gen_hash_end(&item) { dfs.at.push(("fn.end".into(), t)); } }
+                        let r = render_fn(&mut ctx, &unit, &dfs, &found, true, &disp);
+                        let extra = if d.extra.trim().is_empty() { match derive::gen_spec(&item) { Ok(t) => t, Err(e) => { ctx.problems.push(e); String::new() } } } else { d.extra.clone() };
+                        let wh = imp.generics.where_clause.as_ref().map(|w| format!(" {}", ts(w))).unwrap_or_default();
+                        let header = format!("impl{} ContentHash for {}{}", strip_generic_defaults(&imp.generics), ts(&imp.self_ty), wh);
+                        let base = o.lines().count() + 1;
+                        let pre = format!("{} {{\n{}// ---- fn {} = output of lib/proc-macros/src/content_hash.rs on {}:{}-{}\n", header, extra, disp, d.file, ex.lines.0, ex.lines.1);
+                        let s0 = base + pre.lines().count();
+                        o.push_str(&pre);
+                        o.push_str(&r.text);
+                        let e0 = o.lines().count();
+                        o.push_str("}\n\n");
+                        let mut m = r.meta; m["gen_lines"] = json!([s0, e0]); m["rules"]["R-MACRO-EXPAND"] = json!(1); m["macro_source"] = json!("lib/proc-macros/src/{lib,content_hash}.rs");
+                        ctx.fns_meta.push(m);
+                    }
+                }
+            }
             SItem::Fn(fs) => {
                 match locate(&mut ctx, &fs.file, &fs.path, None) {
                     Ok(found) => {
@@ -501,12 +728,18 @@ fn main() {
                 let mut body = String::new();
                 let mut header: Option<String> = hdr.clone();
                 let mut metas = vec![];
+                let mut assoc: Option<Vec<String>> = None;
                 for fs in fns {
                     match locate(&mut ctx, file, &fs.path, Some(head)) {
                         Ok(found) => {
+                            // a default method of a trait declaration (`@impl file trait Name`) must come with an @implhdr
+                            // (a blanket impl of an extension trait); like a trait-impl method it carries no `pub`.
+                            let trait_default = found.self_ty.is_none() && found.impl_generics.is_some();
+                            if trait_default && header.is_none() { ctx.problems.push(format!("SPEC-ERROR trait default method {} needs @implhdr", fs.path)); continue; }
                             if header.is_none() { header = Some(impl_header(&found, &None, &unit, fs)); }
+                            if assoc.is_none() && found.trait_.is_some() { assoc = Some(found.assoc_types.clone()); }
                             let disp = format!("<{}>::{}", head, fs.path);
-                            let r = render_fn(&mut ctx, &unit, fs, &found, found.trait_.is_some(), &disp);
+                            let r = render_fn(&mut ctx, &unit, fs, &found, found.trait_.is_some() || trait_default, &disp);
                             body.push_str(&format!("// ---- fn {} from {}:{}-{}\n", disp, file, found.start, found.end));
                             let s = body.lines().count();
                             body.push_str(&r.text);
@@ -517,9 +750,75 @@ fn main() {
                     }
                 }
                 let base = o.lines().count() + 1;
+                // associated types of the source trait impl are emitted mechanically, before the spec's @extra text
+                let mut extra = extra.clone();
+                if let Some(a) = &assoc { let mut t = String::new(); for x in a { t.push_str(&format!("{}\n", x)); } extra = format!("{}{}", t, extra); }
                 o.push_str(&format!("{} {{\n{}{}}}\n\n", header.unwrap_or_else(|| format!("impl {}", head)), extra, body));
                 let extra_lines = extra.lines().count();
                 for (mut m, s, e) in metas { m["gen_lines"] = json!([base + extra_lines + s, base + extra_lines + e]); ctx.fns_meta.push(m); }
+            }
+            SItem::CallOrder { file, path, name, callees, f: fs } => {
+                // R-ORDER: positions (1-based ordinal of the enclosing top-level statement) of the named calls in the fn body
+                match locate(&mut ctx, file, path, None) {
+                    Ok(found) => {
+                        struct Calls { cond: usize, out: Vec<(String, bool)> }
+                        impl<'ast> Visit<'ast> for Calls {
+                            fn visit_item(&mut self, _i: &'ast Item) {}
+                            fn visit_expr(&mut self, e: &'ast Expr) {
+                                match e {
+                                    Expr::MethodCall(m) => self.out.push((m.method.to_string(), self.cond == 0)),
+                                    Expr::Call(c) => { if let Expr::Path(p) = &*c.func { if let Some(s) = p.path.segments.last() { self.out.push((s.ident.to_string(), self.cond == 0)); } } }
+                                    _ => {}
+                                }
+                                let nested = matches!(e, Expr::If(_) | Expr::Match(_) | Expr::While(_) | Expr::ForLoop(_) | Expr::Loop(_) | Expr::Closure(_) | Expr::Async(_));
+                                if nested { self.cond += 1; }
+                                syn::visit::visit_expr(self, e);
+                                if nested { self.cond -= 1; }
+                            }
+                        }
+                        let mut first = vec![0usize; callees.len()];
+                        let mut last = vec![0usize; callees.len()];
+                        let mut uncond = vec![false; callees.len()];
+                        let mut listing: Vec<String> = vec![];
+                        for (k, st) in found.block.stmts.iter().enumerate() {
+                            let mut c = Calls { cond: 0, out: vec![] };
+                            c.visit_stmt(st);
+                            for (nm, un) in &c.out {
+                                for (j, want) in callees.iter().enumerate() {
+                                    if want == nm {
+                                        if first[j] == 0 { first[j] = k + 1; uncond[j] = *un; }
+                                        last[j] = k + 1;
+                                        listing.push(format!("stmt {}: {}{}", k + 1, nm, if *un { "" } else { " (conditional)" }));
+                                    }
+                                }
+                            }
+                        }
+                        for (j, want) in callees.iter().enumerate() { if first[j] == 0 { ctx.problems.push(format!("LOST-ANCHOR no call of `{}` in {} ({})", want, path, file)); } }
+                        let tab = |v: &Vec<String>, dflt: &str| -> String { let mut t = String::new(); for (j, x) in v.iter().enumerate() { t.push_str(&format!("if k == {} {{ {} }} else ", j, x)); } t.push_str(&format!("{{ {} }}", dflt)); t };
+                        let mut fgr = Finger(String::new());
+                        fgr.visit_block(&found.block);
+                        let shape = fgr.0;
+                        let start = o.lines().count() + 1;
+                        o.push_str(&format!("// ---- call order in {} from {}:{}-{} — {}\n", path, file, found.start, found.end, listing.join("; ")));
+                        o.push_str(&format!("pub open spec fn {}_first(k: int) -> int {{ {} }}\n", name, tab(&first.iter().map(|x| x.to_string()).collect(), "0")));
+                        o.push_str(&format!("pub open spec fn {}_last(k: int) -> int {{ {} }}\n", name, tab(&last.iter().map(|x| x.to_string()).collect(), "0")));
+                        o.push_str(&format!("pub open spec fn {}_unconditional(k: int) -> bool {{ {} }}\n", name, tab(&uncond.iter().map(|x| x.to_string()).collect(), "false")));
+                        let mut body = String::new();
+                        if ctx.canary && !fs.no_canary.contains("exit") {
+                            let tag = format!("{}#callorder:exit", path);
+                            ctx.canaries.push(tag.clone());
+                            body = format!("\n    assert(false); /*VX-CANARY {}*/\n", tag);
+                        }
+                        o.push_str(&format!("pub proof fn {}()\n    ensures\n{}\n{{{}}}\n\n", name, indent(&fs.ensures, 8), body));
+                        ctx.fns_meta.push(json!({
+                            "name": format!("{}#callorder", path), "emit_name": name, "file": file, "src_lines": [found.start, found.end],
+                            "rules": {"R-ORDER": 1}, "shape": shape, "fingerprint": fnv(&shape), "loops": 0, "closures": 0, "anchors_used": [],
+                            "props": fs.props, "may_panic_asserts": [], "spec_line": fs.line, "included": fs.opts.contains("included"),
+                            "call_positions": listing, "gen_lines": [start, o.lines().count()],
+                        }));
+                    }
+                    Err(e) => ctx.problems.push(e),
+                }
             }
             SItem::Lift(l) => {
                 // R-EXPR: lift the initialiser of `let BINDER = EXPR;` in the named fn
@@ -538,33 +837,54 @@ fn main() {
                         let mut fl = FindLet { name: &l.binder, hit: None };
                         fl.visit_block(&found.block);
                         match fl.hit {
-                            Some((ex, s, e)) => {
-                                // the documented form `name(args) -> (r: T)` is Verus syntax: turn the named return into plain Rust for syn, keep the name
-                                let mut sig_src = l.sig.trim().to_string();
-                                let mut lifted_ret: Option<String> = None;
-                                if let Some(ar) = sig_src.rfind("->") {
-                                    let tail = sig_src[ar + 2..].trim().to_string();
+                            Some((mut ex, s, e)) => {
+                                // @subst PLACE => EXPR: a free place expression of the enclosing fn (e.g. `self.a.b`) becomes a parameter
+                                struct Subst<'a> { pairs: &'a [(String, String)], hits: Vec<usize>, bad: Vec<String> }
+                                impl<'a> VisitMut for Subst<'a> {
+                                    fn visit_expr_mut(&mut self, e: &mut Expr) {
+                                        if matches!(e, Expr::Field(_) | Expr::Path(_)) {
+                                            let k = squash(&ts(e));
+                                            for (i, (from, to)) in self.pairs.iter().enumerate() {
+                                                if k == squash(from) {
+                                                    match parse_str::<Expr>(to) { Ok(ne) => { *e = ne; self.hits[i] += 1; } Err(er) => self.bad.push(format!("{}: {}", to, er)) }
+                                                    return;
+                                                }
+                                            }
+                                        }
+                                        syn::visit_mut::visit_expr_mut(self, e);
+                                    }
+                                }
+                                let mut sb = Subst { pairs: &l.f.subst, hits: vec![0; l.f.subst.len()], bad: vec![] };
+                                sb.visit_expr_mut(&mut ex);
+                                // zero occurrences is not an error: the lifted text then simply ignores the parameter and the contract decides
+                                for b in &sb.bad { ctx.problems.push(format!("SPEC-ERROR @subst target {}", b)); }
+                                let n_subst: usize = sb.hits.iter().sum();
+                                // the documented form is Verus-style `name(args) -> (r: T)`; syn needs `-> T`, the name becomes @ret
+                                let mut sig_rust = l.sig.trim().to_string();
+                                let mut ret_name: Option<String> = None;
+                                if let Some(p) = sig_rust.rfind("->") {
+                                    let tail = sig_rust[p + 2..].trim().to_string();
                                     if tail.starts_with('(') && tail.ends_with(')') {
-                                        let inner = &tail[1..tail.len() - 1];
-                                        if let Some((nm, ty)) = inner.split_once(':') {
-                                            if !nm.trim().is_empty() && nm.trim().chars().all(|c| c.is_alphanumeric() || c == '_') && !ty.trim_start().starts_with(':') {
-                                                lifted_ret = Some(nm.trim().to_string());
-                                                sig_src = format!("{} -> {}", &sig_src[..ar], ty.trim());
+                                        if let Some((nm, ty)) = tail[1..tail.len() - 1].split_once(':') {
+                                            if nm.trim().chars().all(|c| c.is_alphanumeric() || c == '_') && !ty.trim_start().starts_with(':') {
+                                                ret_name = Some(nm.trim().to_string());
+                                                sig_rust = format!("{} -> {}", &sig_rust[..p].trim_end(), ty.trim());
                                             }
                                         }
                                     }
                                 }
-                                let sigtxt = format!("fn {} {{}}", sig_src);
+                                let sigtxt = format!("fn {} {{}}", sig_rust);
                                 match parse_str::<ItemFn>(&sigtxt) {
                                     Ok(f) => {
                                         let blk: Block = parse_quote!({ #ex });
-                                        let ff = FoundFn { attrs: vec![], sig: f.sig.clone(), block: blk, impl_generics: None, self_ty: None, trait_: None, start: s, end: e };
+                                        let ff = FoundFn { attrs: vec![], sig: f.sig.clone(), block: blk, impl_generics: None, self_ty: None, trait_: None, assoc_types: vec![], start: s, end: e };
                                         let mut fs = l.f.clone();
                                         fs.emit_name = Some(f.sig.ident.to_string());
-                                        if let Some(rn) = &lifted_ret { fs.ret_name = rn.clone(); }
+                                        if let Some(rn) = &ret_name { if fs.ret_name == "r" { fs.ret_name = rn.clone(); } }
                                         let disp = format!("{}#let {}", l.path, l.binder);
                                         let mut r = render_fn(&mut ctx, &unit, &fs, &ff, false, &disp);
                                         r.meta["rules"]["R-EXPR"] = json!(1);
+                                        if n_subst > 0 { r.meta["rules"]["R-EXPR(subst)"] = json!(n_subst); }
                                         let start = o.lines().count() + 1;
                                         o.push_str(&format!("// ---- lifted `let {}` of {} from {}:{}-{}\n{}\n", l.binder, l.path, l.file, s, e, r.text));
                                         let mut m = r.meta; m["gen_lines"] = json!([start, o.lines().count()]);
@@ -587,7 +907,16 @@ fn main() {
     for (ln, line) in o.lines().enumerate() {
         if let Some(p) = line.find("/*VX-CANARY ") { let tag = line[p + 12..].trim_end_matches("*/").trim().to_string(); canary_lines.push(json!({"tag": tag, "line": ln + 1})); }
     }
+    // --lenient: anchors that no longer resolve (`@at`, `@loop`, `@closure`) are dropped instead of being fatal: the
+    // contract text woven there is proof HINTS only, so dropping it can make a proof fail but never succeed wrongly
+    let mut lost_anchors: Vec<String> = vec![];
+    if lenient {
+        let (soft, hard): (Vec<String>, Vec<String>) = ctx.problems.drain(..).partition(|p| p.starts_with("LOST-ANCHOR `") || p.starts_with("LOST-ANCHOR loop ") || p.starts_with("LOST-ANCHOR closure "));
+        lost_anchors = soft;
+        ctx.problems = hard;
+    }
     let meta = json!({
+        "lost_anchors": lost_anchors,
         "unit": unit.name, "serves": unit.serves, "prelude": unit.prelude, "functions": ctx.fns_meta, "types": ctx.types_meta,
         "canaries": canary_lines, "problems": ctx.problems, "trusted_allow": unit.trusted_allow,
         "assumptions": unit.assumptions, "not_under_contract": unit.not_under_contract,
